@@ -1,7 +1,20 @@
-import hashlib
+import hashlib, os, re
 from ..run import Prop
 from .. import gen, gen_relgrammar as G, core
 from ..core import rec_fields, unhex, hexs
+
+def repo_is_prefix():
+    """True when the repository under test still has the lossless parser WITHOUT
+    proposed_fixes/C10-epoch-and-space-in-version.patch (recognised by the old code of the version
+    clause in fn parse).  Then the faithful model of the text streams is RelParsePre.v."""
+    try:
+        src = open(os.path.join(core.REPO, "debian-control/src/lossless/relations.rs"), encoding="utf-8").read()
+    except OSError:
+        return False
+    flat = re.sub(r"\s+", " ", src)
+    old = ('if self.current() == Some(IDENT) { self.bump(); } else { self.error("Expected version".to_string()); } '
+           'if self.current() == Some(R_PARENS) {')
+    return old in flat
 
 LOSSY_CLASSES = ["lossy-negated-arch", "lossy-multi-term-profile", "lossy-ws-in-profile", "lossy-space-before-rparen"]
 
@@ -48,6 +61,13 @@ class C10(Prop):
     def streams(self, tier, rng):
         docs = G.doc_cases(tier, rng, "d")
         yield "rel-doc", docs
+        if repo_is_prefix():
+            # the code under test lacks the proposed fix: rel-doc reports the property violations;
+            # the text stream is compared with the faithful model of the code as it is
+            core.log("[C10] the repository under test lacks proposed_fixes/C10-epoch-and-space-in-version.patch: "
+                     "text stream compared with the pre-fix model (RelParsePre.v)")
+            yield "rel-acc-pre", G.text_cases(tier, rng, "t")
+            return
         k = {"quick": 2500, "search": 6000, "thorough": 40000}[tier]
         yield "rel-doc-model", [(cid.replace("d", "m", 1), fs) for cid, fs in docs[:k]]
         yield "rel-acc", G.text_cases(tier, rng, "t")
@@ -84,10 +104,10 @@ class C10(Prop):
         return impl.count("n:") >= 1
 
     def shrink_field(self, stream):
-        return 0 if stream == "rel-acc" else None
+        return 0 if stream in ("rel-acc", "rel-acc-pre") else None
 
     def neighbours(self, stream, fields):
-        if stream != "rel-acc":
+        if stream not in ("rel-acc", "rel-acc-pre"):
             return []
         s = unhex(fields[0])
         out = []
